@@ -162,3 +162,119 @@ func VfH_C14_resolve() {
 	vfAssert(got == vfRefResolve(fm, faces, curQ, curS, r), "ResolveFace differs from the uncached reference for the current query/script/rune (stale cache or wrong priority)")
 	vfReach("end")
 }
+
+// ---- H-C14-addface: the real candidate construction and AddFace ----
+//
+// No candidate stub here: buildCandidates, selectByFamilyExact/WithSubs (the real substitution table),
+// retainsBestMatches and filterUserProvided run from source, on a database grown by AddFace during the
+// history. The oracle is a fresh FontMap that receives the same faces in the same order and the current
+// query and script only. Faces carry a tiny cmap (a subset of {A, B}) and a family among {a, b}.
+
+type vfCmap []rune
+
+type vfCmapIter struct {
+	runes []rune
+	pos   int
+}
+
+func (it *vfCmapIter) Next() bool { it.pos++; return it.pos <= len(it.runes) }
+
+func (it *vfCmapIter) Char() (rune, font.GID) { return it.runes[it.pos-1], font.GID(it.pos) }
+
+func (c vfCmap) Iter() font.CmapIter { return &vfCmapIter{runes: c} }
+
+func (c vfCmap) Lookup(r rune) (font.GID, bool) {
+	for i, v := range c {
+		if v == r {
+			return font.GID(i + 1), true
+		}
+	}
+	return 0, false
+}
+
+type vfAddedFace struct {
+	face *font.Face
+	loc  Location
+	md   font.Description // accurate in the sense of AddFace: every aspect field is set
+}
+
+func vfNewAddedFace(i int) vfAddedFace {
+	cmaps := [...]vfCmap{{'A'}, {'A', 'B'}, {}, {'B'}}
+	fams := [...]string{"a", "b"}
+	weights := [...]font.Weight{font.WeightNormal, font.WeightBold}
+	ncmaps, nweights := 3, 1
+	if vfThorough() {
+		ncmaps, nweights = 4, 2
+	}
+	return vfAddedFace{
+		face:   &font.Face{Font: &font.Font{Cmap: cmaps[vfChoice("faceCmap", ncmaps)]}},
+		loc:    Location{File: string(rune('f' + i))},
+		md: font.Description{Family: fams[vfChoice("faceFamily", len(fams))],
+			Aspect: font.Aspect{Style: font.StyleNormal, Weight: weights[vfChoice("faceWeight", nweights)], Stretch: font.StretchNormal}},
+	}
+}
+
+func VfH_C14_addface() {
+	VfHook_newLangsetFromCoverage = func(RuneSet) LangSet { return LangSet{} }
+	queries := [...]Query{{Families: []string{"a"}}, {Families: []string{"b", "a"}}, {Families: []string{"b"}}, {Families: []string{"a", "b"}}}
+	nqueries := 2
+	if vfThorough() {
+		nqueries = 4
+	}
+	scripts := [...]language.Script{language.Latin, language.Arabic}
+	runes := [...]rune{'A', 'B'}
+
+	used := NewFontMap(nil)
+	if vfChoice("cache", 2) == 1 {
+		used.SetRuneCacheSize(0)
+	}
+	var added []vfAddedFace
+	add := func() {
+		f := vfNewAddedFace(len(added))
+		added = append(added, f)
+		used.AddFace(f.face, f.loc, f.md)
+	}
+	add()
+	curQ, curS := vfChoice("query0", nqueries), 0
+	used.SetQuery(queries[curQ])
+	used.SetScript(scripts[curS])
+
+	check := func() {
+		r := runes[vfChoice("rune", len(runes))]
+		got := used.ResolveFace(r)
+		fresh := NewFontMap(nil)
+		for _, f := range added {
+			fresh.AddFace(f.face, f.loc, f.md)
+		}
+		fresh.SetQuery(queries[curQ])
+		fresh.SetScript(scripts[curS])
+		want := fresh.ResolveFace(r)
+		vfAssert(got != nil, "ResolveFace returned nil although the map holds fonts")
+		vfAssert(got == want, "ResolveFace on a used map differs from a fresh map with the same fonts, query and script")
+	}
+
+	maxOps := 2
+	if vfThorough() {
+		maxOps = 3
+	}
+	nops := vfChoice("nops", maxOps+1)
+	for i := 0; i < nops; i++ {
+		switch vfChoice("op", 4) {
+		case 0:
+			if len(added) < 3 {
+				add()
+			}
+		case 1:
+			curQ = vfChoice("query", nqueries)
+			used.SetQuery(queries[curQ])
+		case 2:
+			curS = vfChoice("script", len(scripts))
+			used.SetScript(scripts[curS])
+		case 3:
+			check()
+		}
+	}
+	check()
+	vfCover("grown", len(added) > 1)
+	vfReach("end")
+}
